@@ -16,7 +16,7 @@ MULTI = ["and", "nand", "or", "nor", "xor", "xnor"]
 
 def task(ctx):
     fn, seg, sha = engine.find_function(F, QUAL)
-    info = {"function": f"{F}::{QUAL}", "sha256": sha, "lines": [fn.lineno, fn.end_lineno], "variants": ["all four flags symbolic"]}
+    info = {"function": f"{F}::{QUAL}", "sha256": sha, "lines": engine.abs_lines(fn), "variants": ["all four flags symbolic"]}
     T = ctx.tval
     H = {}
     consts = engine.module_constants("circuitgraph/circuit.py")
